@@ -3,6 +3,7 @@
   specification predicates.
 -/
 import Prtpy
+import PrtpyProofs.Fit
 open Prtpy
 namespace Prtpy.Checkers
 
@@ -696,10 +697,41 @@ theorem optCoverFrom_spec (B : Nat) (vals : List Nat) (n : Nat) :
         exact absurd (coverableB_iff'.2 hcov) hc
       · exact ih.2 m (by omega) hcov
 
+theorem length_mul_le_sumL {B : Nat} : ∀ (l : List Nat), (∀ s ∈ l, B ≤ s) → l.length * B ≤ sumL l
+  | [], _ => by simp [sumL]
+  | a :: l, h => by
+    have h1 := h a List.mem_cons_self
+    have ih := length_mul_le_sumL l (fun s hs => h s (List.mem_cons_of_mem _ hs))
+    simp only [sumL, List.length_cons, Nat.add_mul]
+    omega
+
+theorem sumL_take_le : ∀ (m : Nat) (l : List Nat), sumL (l.take m) ≤ sumL l
+  | 0, l => by simp [sumL]
+  | _ + 1, [] => by simp [sumL]
+  | m + 1, a :: l => by
+    have := sumL_take_le m l
+    simp only [List.take_succ_cons, sumL]
+    omega
+
+/-- covering `m` bins needs a total of at least `m * B` -/
+theorem coverable_mul_le_total {B m : Nat} {vals : List Nat} (h : Coverable B m vals) : m * B ≤ sumL vals := by
+  obtain ⟨asg, hasg, hall⟩ := h
+  have hs := Fit.sumsOf_length_sum hasg
+  have h1 := length_mul_le_sumL _ hall
+  have h2 := sumL_take_le m (sumsOf (m + 1) vals asg)
+  have h3 : ((sumsOf (m + 1) vals asg).take m).length = m := by
+    simp only [List.length_take, hs.1]; omega
+  rw [h3] at h1
+  omega
+
 theorem optCover_spec {B : Nat} {vals : List Nat} (hB : 0 < B) :
-    Coverable B (optCover B vals) vals ∧ ∀ m, Coverable B m vals → m ≤ optCover B vals :=
-  ⟨(optCoverFrom_spec B vals vals.length).1, fun m hm =>
-    (optCoverFrom_spec B vals vals.length).2 m (coverable_le_length hB hm) hm⟩
+    Coverable B (optCover B vals) vals ∧ ∀ m, Coverable B m vals → m ≤ optCover B vals := by
+  unfold optCover
+  refine ⟨(optCoverFrom_spec B vals _).1, fun m hm => (optCoverFrom_spec B vals _).2 m ?_ hm⟩
+  have h1 := coverable_le_length hB hm
+  have h2 := coverable_mul_le_total hm
+  have h3 : m ≤ sumL vals / B := (Nat.le_div_iff_mul_le hB).2 h2
+  omega
 
 example : Coverable 7 2 [6, 5, 4, 3, 1] ∧ 2 ≤ optCover 7 [6, 5, 4, 3, 1] :=
   have h : Coverable 7 2 [6, 5, 4, 3, 1] := ⟨[0, 1, 1, 0, 2], ⟨rfl, by decide⟩, by decide⟩
